@@ -174,6 +174,10 @@ func (o *OrderedCollectionPage) Count() uint {
 // Append adds an element to an OrderedCollectionPage
 func (o *OrderedCollectionPage) Append(it ...Item) error {
 	for _, ob := range it {
+		if IsNil(ob) {
+			// nothing to append
+			continue
+		}
 		if o.OrderedItems.Contains(ob) {
 			continue
 		}
